@@ -229,19 +229,19 @@ Section Model.
     end.
 
   (* grow(n) *)
-  Definition grow (n : nat) (s : sv) : res sv :=
+  Definition grow_ref (n : nat) (s : sv) : res sv :=
     (* vita::uninitialized_move(begin(), end(), new_data) *)
     '(d', new') <- xfer c_construct true (size s) (data s) (alloc n) ;;
     s1 <- (if is_heap s then free_heap_memory (set_data s d' (size s)) else Ok (set_data s d' (size s))) ;;
     Ok (mkSv (Some new') (loc s1) (size s)).
 
   (* grow() *)
-  Definition grow1 (s : sv) : res sv :=
+  Definition grow1_ref (s : sv) : res sv :=
     let n_old := size s in
-    grow (if 1 <? n_old then (3 * n_old) / 2 else n_old + 1) s.
+    grow_ref (if 1 <? n_old then (3 * n_old) / 2 else n_old + 1) s.
 
-  Definition reserve (n : nat) (s : sv) : res sv :=
-    if capacity s <? n then grow n s else Ok s.
+  Definition reserve_ref (n : nat) (s : sv) : res sv :=
+    if capacity s <? n then grow_ref n s else Ok s.
 
   (* ------------------------------------------------ constructors *)
   (* shared tail of the constructors: n elements vs written into new storage *)
@@ -253,7 +253,7 @@ Section Model.
       h <- write_range c_construct 0 vs (alloc n) ;; Ok (mkSv (Some h) fresh_local n).
 
   (* small_vector(size_type n)  -- repaired *)
-  Definition ctor_n (n : nat) : res sv :=
+  Definition ctor_n_ref (n : nat) : res sv :=
     if n <=? S then
       l <- (if triv then write_range c_assign 0 (repeat dflt n) fresh_local else Ok fresh_local) ;;
       Ok (mkSv None l n)
@@ -262,7 +262,7 @@ Section Model.
       Ok (mkSv (Some h) fresh_local n).
 
   (* small_vector(size_type n, const T &x) *)
-  Definition ctor_fill (n : nat) (x : V) : res sv := build (repeat x n).
+  Definition ctor_fill_ref (n : nat) (x : V) : res sv := build (repeat x n).
 
   (* small_vector(std::initializer_list<T>) *)
   Definition ctor_list (l : list V) : res sv := build l.
@@ -278,7 +278,7 @@ Section Model.
       '(_, h) <- xfer c_construct false n (data rhs) (alloc n) ;; Ok (mkSv (Some h) fresh_local n).
 
   (* small_vector(small_vector &&): returns (new object, rhs afterwards) *)
-  Definition move_ctor (rhs : sv) : res (sv * sv) :=
+  Definition move_ctor_ref (rhs : sv) : res (sv * sv) :=
     let n := size rhs in
     if n <=? S then
       (* std::move(rhs.begin(), rhs.end(), begin()) *)
@@ -292,7 +292,7 @@ Section Model.
 
   (* ------------------------------------------------ assignment *)
   (* operator=(const small_vector &), this != &rhs  -- repaired *)
-  Definition copy_assign (this rhs : sv) : res sv :=
+  Definition copy_assign_ref (this rhs : sv) : res sv :=
     let n := size rhs in
     if capacity this <? n then
       this1 <- (if is_heap this then free_heap_memory this else Ok this) ;;
@@ -309,7 +309,7 @@ Section Model.
       Ok (set_data this d2 n).
 
   (* operator=(small_vector &&), this != &rhs: (this, rhs) afterwards *)
-  Definition move_assign (this rhs : sv) : res (sv * sv) :=
+  Definition move_assign_ref (this rhs : sv) : res (sv * sv) :=
     let n := size rhs in
     this1 <- (if is_heap this then free_heap_memory this else Ok this) ;;
     if n <=? S then
@@ -327,40 +327,256 @@ Section Model.
     s1 <- (if is_heap s then free_heap_memory s else Ok s) ;;
     Ok (mkSv None (loc s1) 0).
 
-  (* push_back(const T &x), x not an element of the vector  -- repaired
+  (* push_back_ref(const T &x), x not an element of the vector  -- repaired
      (the temporary copy of x is not a cell of the model) *)
-  Definition push_back (x : V) (s : sv) : res sv :=
+  Definition push_back_ref (x : V) (s : sv) : res sv :=
     if size s =? capacity s then
-      s1 <- grow1 s ;;
+      s1 <- grow1_ref s ;;
       d <- write_range c_construct (size s1) [x] (data s1) ;;
       Ok (set_data s1 d (Datatypes.S (size s1)))
     else
       d <- write_range (put s) (size s) [x] (data s) ;;
       Ok (set_data s d (Datatypes.S (size s))).
 
-  (* push_back(v[i])  -- repaired: the element is copied first *)
-  Definition push_back_self (i : nat) (s : sv) : res sv :=
+  (* push_back_ref(v[i])  -- repaired: the element is copied first *)
+  Definition push_back_self_ref (i : nat) (s : sv) : res sv :=
     vs <- read_range i 1 (data s) ;;
     match vs with
-    | [x] => push_back x s
+    | [x] => push_back_ref x s
     | _ => Err BadRange
     end.
 
-  (* emplace_back(args...): T(args...) is built as a temporary and
+  (* emplace_back_ref(args...): T(args...) is built as a temporary and
      move-assigned / move-constructed into place: same cell actions *)
-  Definition emplace_back (x : V) (s : sv) : res sv := push_back x s.
+  Definition emplace_back_ref (x : V) (s : sv) : res sv := push_back_ref x s.
 
-  (* emplace_back(v[i])  -- repaired: T tmp(v[i]) is built first *)
-  Definition emplace_back_self (i : nat) (s : sv) : res sv := push_back_self i s.
+  (* emplace_back_ref(v[i])  -- repaired: T tmp(v[i]) is built first *)
+  Definition emplace_back_self_ref (i : nat) (s : sv) : res sv := push_back_self_ref i s.
 
-  (* append(b, e) (private), range not aliasing the vector; returns the index
+  (* append_ref(b, e) (private), range not aliasing the vector; returns the index
      of the iterator it returns  -- repaired *)
-  Definition append (vs : list V) (s : sv) : res (sv * nat) :=
+  Definition append_ref (vs : list V) (s : sv) : res (sv * nat) :=
     let n := length vs in
     let old_size := size s in
-    s1 <- reserve (size s + n) s ;;
+    s1 <- reserve_ref (size s + n) s ;;
     d <- write_range (put s1) (size s1) vs (data s1) ;;
     Ok (set_data s1 d (size s1 + n), old_size).
+
+  (* by_storage: the writer chosen by local_storage_used() *)
+  Definition sel (by_storage : cell -> V -> res cell) (w : wsel) : cell -> V -> res cell :=
+    match w with WAssign => c_assign | WConstruct => c_construct | WByStorage => by_storage end.
+
+  (* ================================================================
+     Interpreter of the programs extracted from small_vector.tcc
+     (Gen/SmallVecOps.v, [progs_gen]).  Continuation-passing: the actions of a
+     program run in source order on an environment; the methods below are the
+     interpretations of the extracted programs, so the model follows the
+     source.  The *_ref definitions above are what the programs of the
+     current source mean (SmallVecProofs: *_interp lemmas); the theorems are
+     proved about them. *)
+  Inductive argv :=
+  | ArgVal (x : V)          (* a value that does not live in the vector *)
+  | ArgSelf (i : nat)       (* a reference to element i of this vector *)
+  | ArgLocal (i : nat)      (* ... which now designates a moved-from object of the local storage *)
+  | ArgFreed.               (* ... which now designates released memory *)
+
+  Record env := mkEnv {
+    e_this : sv; e_rhs : sv; e_nn : nat; e_nold : nat; e_oldsize : nat; e_saved : bool;
+    e_arg : argv; e_tmp : option V; e_newd : list cell; e_vals : list V }.
+
+  Definition with_this (e : env) (s : sv) : env :=
+    mkEnv s (e_rhs e) (e_nn e) (e_nold e) (e_oldsize e) (e_saved e) (e_arg e) (e_tmp e) (e_newd e) (e_vals e).
+  Definition with_rhs (e : env) (s : sv) : env :=
+    mkEnv (e_this e) s (e_nn e) (e_nold e) (e_oldsize e) (e_saved e) (e_arg e) (e_tmp e) (e_newd e) (e_vals e).
+  Definition with_n (e : env) (n : nat) : env :=
+    mkEnv (e_this e) (e_rhs e) n (e_nold e) (e_oldsize e) (e_saved e) (e_arg e) (e_tmp e) (e_newd e) (e_vals e).
+  Definition with_arg (e : env) (a : argv) : env :=
+    mkEnv (e_this e) (e_rhs e) (e_nn e) (e_nold e) (e_oldsize e) (e_saved e) a (e_tmp e) (e_newd e) (e_vals e).
+  Definition with_size (s : sv) (n : nat) : sv := mkSv (heap s) (loc s) n.
+
+  Fixpoint eval_nexp (e : env) (x : nexp) : nat :=
+    match x with
+    | EN => e_nn e
+    | ENOld => e_nold e
+    | ESize => size (e_this e)
+    | ECap => capacity (e_this e)
+    | ERhsSize => size (e_rhs e)
+    | ECapS => S
+    | EConst k => k
+    | EAdd a b => eval_nexp e a + eval_nexp e b
+    | EMul a b => eval_nexp e a * eval_nexp e b
+    | EDiv a b => eval_nexp e a / eval_nexp e b
+    | EMax a b => Nat.max (eval_nexp e a) (eval_nexp e b)
+    | EIfGt a b t f => if eval_nexp e b <? eval_nexp e a then eval_nexp e t else eval_nexp e f
+    end.
+
+  Definition eval_cond (e : env) (c : cond) : bool :=
+    match c with
+    | CLe a b => eval_nexp e a <=? eval_nexp e b
+    | CLt a b => eval_nexp e a <? eval_nexp e b
+    | CEq a b => eval_nexp e a =? eval_nexp e b
+    | CLocal => negb (is_heap (e_this e))
+    | CHeap => is_heap (e_this e)
+    | CTrivial => triv
+    | CNonTrivial => negb triv
+    | CSavedLocal => e_saved e
+    end.
+
+  (* the value of the argument x / args... at this moment *)
+  Definition use_arg {A} (e : env) (k : V -> res A) : res A :=
+    match e_arg e with
+    | ArgVal x => k x
+    | ArgSelf i => vs <- read_range i 1 (data (e_this e)) ;; match vs with [x] => k x | _ => Err BadRange end
+    | ArgLocal i => vs <- read_range i 1 (loc (e_this e)) ;; match vs with [x] => k x | _ => Err BadRange end
+    | ArgFreed => Err ReadRaw
+    end.
+
+  (* after grow(): a reference to an element designates the old storage *)
+  Definition dangle (was_heap : bool) (a : argv) : argv :=
+    match a with ArgSelf i => if was_heap then ArgFreed else ArgLocal i | _ => a end.
+
+  Record callees := mkCallees {
+    cs_grow : sv -> res sv; cs_grow_n : nat -> sv -> res sv; cs_reserve : nat -> sv -> res sv }.
+  Definition no_calls : callees :=
+    mkCallees (fun _ => Err BadRange) (fun _ _ => Err BadRange) (fun _ _ => Err BadRange).
+
+  Definition exec_act {A} (cs : callees) (a : act) (e : env) (k : env -> res A) : res A :=
+    let this := e_this e in
+    let rhs := e_rhs e in
+    let n := e_nn e in
+    match a with
+    | ALetN x => k (with_n e (eval_nexp e x))
+    | ALetNVals => k (with_n e (length (e_vals e)))
+    | ALetNOld => k (mkEnv this rhs n (size this) (e_oldsize e) (e_saved e) (e_arg e) (e_tmp e) (e_newd e) (e_vals e))
+    | ALetOldSize => k (mkEnv this rhs n (e_nold e) (size this) (e_saved e) (e_arg e) (e_tmp e) (e_newd e) (e_vals e))
+    | ASaveLocal => k (mkEnv this rhs n (e_nold e) (e_oldsize e) (negb (is_heap this)) (e_arg e) (e_tmp e) (e_newd e) (e_vals e))
+    | ASetLocal x => k (with_this e (mkSv None (loc this) (eval_nexp e x)))
+    | ASetHeapNew => k (with_this e (mkSv (Some (alloc n)) (loc this) n))
+    | AStealRhs =>
+      match heap rhs with
+      | Some h => k (with_rhs (with_this e (mkSv (Some h) (loc this) (size rhs))) (mkSv None (loc rhs) 0))
+      | None => Err BadRange
+      end
+    | ASetSize x => k (with_this e (with_size this (eval_nexp e x)))
+    | AIncSize => k (with_this e (with_size this (Datatypes.S (size this))))
+    | AAddSizeN => k (with_this e (with_size this (size this + n)))
+    | ARhsSetSize0 => k (with_rhs e (with_size rhs 0))
+    | AFreeHeap => s' <- free_heap_memory this ;; k (with_this e s')
+    | AFromRhs moving w =>
+      '(d', l) <- xfer (sel (put this) w) moving (size rhs) (data rhs) (data this) ;;
+      k (with_rhs (with_this e (set_data this l (size this))) (set_data rhs d' (size rhs)))
+    | ADestroyTail =>
+      d <- destroy_range n (size this) (data this) ;; k (with_this e (set_data this d (size this)))
+    | AConstructUpToN =>
+      d <- write_range c_construct (size this) (repeat dflt (n - size this)) (data this) ;;
+      k (with_this e (set_data this d (size this)))
+    | AFillTailDefault =>
+      d <- write_range c_assign (size this) (repeat dflt (n - size this)) (data this) ;;
+      k (with_this e (set_data this d (size this)))
+    | AFillNDefault =>
+      d <- write_range c_assign 0 (repeat dflt n) (data this) ;; k (with_this e (set_data this d (size this)))
+    | AFillNArg =>
+      use_arg e (fun x => d <- write_range c_assign 0 (repeat x n) (data this) ;;
+                          k (with_this e (set_data this d (size this))))
+    | AConstructAllDefault =>
+      d <- write_range c_construct 0 (repeat dflt n) (data this) ;; k (with_this e (set_data this d (size this)))
+    | AConstructAllArg =>
+      use_arg e (fun x => d <- write_range c_construct 0 (repeat x n) (data this) ;;
+                          k (with_this e (set_data this d (size this))))
+    | AConstructToCap =>
+      d <- write_range c_construct (size this) (repeat dflt (capacity this - size this)) (data this) ;;
+      k (with_this e (set_data this d (capacity this)))
+    | ATmpFromArg =>
+      use_arg e (fun x => k (mkEnv this rhs n (e_nold e) (e_oldsize e) (e_saved e) (e_arg e) (Some x) (e_newd e) (e_vals e)))
+    | AConstructEndTmp =>
+      match e_tmp e with
+      | Some x => d <- write_range c_construct (size this) [x] (data this) ;;
+                  k (with_this e (set_data this d (size this)))
+      | None => Err BadRange
+      end
+    | AAssignEndArg =>
+      use_arg e (fun x => d <- write_range c_assign (size this) [x] (data this) ;;
+                          k (with_this e (set_data this d (size this))))
+    | AConstructEndArg =>
+      use_arg e (fun x => d <- write_range c_construct (size this) [x] (data this) ;;
+                          k (with_this e (set_data this d (size this))))
+    | ANewData => k (mkEnv this rhs n (e_nold e) (e_oldsize e) (e_saved e) (e_arg e) (e_tmp e) (alloc n) (e_vals e))
+    | AMoveToNewData =>
+      '(d', new') <- xfer c_construct true (size this) (data this) (e_newd e) ;;
+      k (mkEnv (set_data this d' (size this)) rhs n (e_nold e) (e_oldsize e) (e_saved e) (e_arg e) (e_tmp e) new' (e_vals e))
+    | AAdoptNewData => k (with_this e (mkSv (Some (e_newd e)) (loc this) (e_nold e)))
+    | ACallGrow => s' <- cs_grow cs this ;; k (with_arg (with_this e s') (dangle (is_heap this) (e_arg e)))
+    | ACallGrowN => s' <- cs_grow_n cs n this ;; k (with_arg (with_this e s') (dangle (is_heap this) (e_arg e)))
+    | ACallReserve x => s' <- cs_reserve cs (eval_nexp e x) this ;; k (with_this e s')
+    | AWriteVals w =>
+      d <- write_range (sel (put this) w) (size this) (e_vals e) (data this) ;;
+      k (with_this e (set_data this d (size this)))
+    end.
+
+  Fixpoint exec {A} (cs : callees) (p : prog) (e : env) (k : env -> res A) : res A :=
+    match p with
+    | PNil => k e
+    | PAct a r => exec_act cs a e (fun e' => exec cs r e' k)
+    | PIf c t f r =>
+      if eval_cond e c then exec cs t e (fun e' => exec cs r e' k)
+      else exec cs f e (fun e' => exec cs r e' k)
+    end.
+
+  Definition env0 (this rhs : sv) (n : nat) (a : argv) (vals : list V) : env :=
+    mkEnv this rhs n 0 0 false a None [] vals.
+
+  (* the methods of a given set of programs *)
+  Section WithProgs.
+    Variable G : progs.
+
+    Definition grow_of (n : nat) (s : sv) : res sv :=
+      exec no_calls (p_grow_n G) (env0 s s n (ArgVal dflt) []) (fun e => Ok (e_this e)).
+    Definition calls1 : callees := mkCallees (fun _ => Err BadRange) grow_of (fun _ _ => Err BadRange).
+    Definition grow1_of (s : sv) : res sv :=
+      exec calls1 (p_grow G) (env0 s s 0 (ArgVal dflt) []) (fun e => Ok (e_this e)).
+    Definition reserve_of (n : nat) (s : sv) : res sv :=
+      exec calls1 (p_reserve G) (env0 s s n (ArgVal dflt) []) (fun e => Ok (e_this e)).
+    Definition calls2 : callees := mkCallees grow1_of grow_of reserve_of.
+
+    Definition resize_of (n : nat) (s : sv) : res sv :=
+      exec calls2 (p_resize G) (env0 s s n (ArgVal dflt) []) (fun e => Ok (e_this e)).
+    Definition push_back_of (a : argv) (s : sv) : res sv :=
+      exec calls2 (p_push_back G) (env0 s s 0 a []) (fun e => Ok (e_this e)).
+    Definition emplace_back_of (a : argv) (s : sv) : res sv :=
+      exec calls2 (p_emplace_back G) (env0 s s 0 a []) (fun e => Ok (e_this e)).
+    Definition append_of (vs : list V) (s : sv) : res (sv * nat) :=
+      exec calls2 (p_append G) (env0 s s 0 (ArgVal dflt) vs) (fun e => Ok (e_this e, e_oldsize e)).
+    Definition copy_assign_of (this rhs : sv) : res sv :=
+      exec calls2 (p_copy_assign G) (env0 this rhs 0 (ArgVal dflt) []) (fun e => Ok (e_this e)).
+    Definition move_assign_of (this rhs : sv) : res (sv * sv) :=
+      exec calls2 (p_move_assign G) (env0 this rhs 0 (ArgVal dflt) []) (fun e => Ok (e_this e, e_rhs e)).
+    (* constructors start from a new object: local storage default-initialised *)
+    Definition move_ctor_of (rhs : sv) : res (sv * sv) :=
+      exec calls2 (p_move_ctor G) (env0 (mkSv None fresh_local 0) rhs 0 (ArgVal dflt) [])
+           (fun e => Ok (e_this e, e_rhs e)).
+    Definition ctor_n_of (n : nat) : res sv :=
+      exec calls2 (p_ctor_n G) (env0 (mkSv None fresh_local 0) (mkSv None fresh_local 0) n (ArgVal dflt) [])
+           (fun e => Ok (e_this e)).
+    Definition ctor_fill_of (n : nat) (x : V) : res sv :=
+      exec calls2 (p_ctor_fill G) (env0 (mkSv None fresh_local 0) (mkSv None fresh_local 0) n (ArgVal x) [])
+           (fun e => Ok (e_this e)).
+  End WithProgs.
+
+  (* the methods of the current source *)
+  Definition grow := grow_of progs_gen.
+  Definition grow1 := grow1_of progs_gen.
+  Definition reserve := reserve_of progs_gen.
+  Definition resize := resize_of progs_gen.
+  Definition push_back (x : V) := push_back_of progs_gen (ArgVal x).
+  Definition push_back_self (i : nat) := push_back_of progs_gen (ArgSelf i).
+  Definition emplace_back (x : V) := emplace_back_of progs_gen (ArgVal x).
+  Definition emplace_back_self (i : nat) := emplace_back_of progs_gen (ArgSelf i).
+  Definition append := append_of progs_gen.
+  Definition copy_assign := copy_assign_of progs_gen.
+  Definition move_assign := move_assign_of progs_gen.
+  Definition move_ctor := move_ctor_of progs_gen.
+  Definition ctor_n := ctor_n_of progs_gen.
+  Definition ctor_fill := ctor_fill_of progs_gen.
 
   (* ---- insert(i, b, e): interpreter of the extracted range operations ---- *)
   (* environment of one branch: insertion index, end() at the start of the
@@ -378,10 +594,6 @@ Section Model.
     | PPlus q k => eval_ptr en cur_end q + eval_num en k
     | PMinus q k => eval_ptr en cur_end q - eval_num en k
     end.
-
-  (* by_storage: the writer chosen by local_storage_used() *)
-  Definition sel (by_storage : cell -> V -> res cell) (w : wsel) : cell -> V -> res cell :=
-    match w with WAssign => c_assign | WConstruct => c_construct | WByStorage => by_storage end.
 
   (* state: block, current end() index, what is left of the inserted range *)
   Definition interp_rcall (by_storage : cell -> V -> res cell) (en : ienv) (c : rcall)
@@ -426,7 +638,7 @@ Section Model.
 
   (* insert(i, b, e) for a given extracted shape; range not aliasing the vector *)
   Definition insert_with (sh : insert_shape) (by_storage_of : sv -> cell -> V -> res cell)
-             (append_f : list V -> sv -> res (sv * nat))
+             (reserve_f : nat -> sv -> res sv) (append_f : list V -> sv -> res (sv * nat))
              (pos : nat) (vs : list V) (s : sv) : res (sv * nat) :=
     if size s <? pos then Err BadRange
     else if has_guard IGAppendAtEnd (ins_guards sh) && (pos =? size s) then append_f vs s
@@ -434,7 +646,7 @@ Section Model.
       let n := length vs in
       if has_guard IGReturnIfEmpty (ins_guards sh) && (n =? 0) then Ok (s, pos)
       else
-        s1 <- reserve (size s + n) s ;;
+        s1 <- reserve_f (size s + n) s ;;
         let sz := size s1 in
         let en := mkIenv pos sz n in
         let simple := match ins_cond sh with ICondTailAtLeastN => pos + n <=? sz | ICondOther => false end in
@@ -444,10 +656,10 @@ Section Model.
 
   (* insert(i, b, e) of the current source  -- repaired *)
   Definition insert (pos : nat) (vs : list V) (s : sv) : res (sv * nat) :=
-    insert_with insert_shape_gen put append pos vs s.
+    insert_with insert_shape_gen put reserve append pos vs s.
 
-  (* resize(n)  -- repaired *)
-  Definition resize (n : nat) (s : sv) : res sv :=
+  (* resize_ref(n)  -- repaired *)
+  Definition resize_ref (n : nat) (s : sv) : res sv :=
     if n <=? capacity s then
       d <- (if negb triv then
               if is_heap s then
@@ -461,9 +673,10 @@ Section Model.
               else Ok (data s)) ;;
       Ok (set_data s d n)
     else
-      s1 <- grow n s ;;
-      d <- write_range c_construct (size s1) (repeat dflt (n - size s1)) (data s1) ;;
-      Ok (set_data s1 d n).
+      s1 <- grow_ref n s ;;
+      (* for (; size_ < capacity_; ++size_) new (size_) T(); *)
+      d <- write_range c_construct (size s1) (repeat dflt (capacity s1 - size s1)) (data s1) ;;
+      Ok (set_data s1 d (capacity s1)).
 
   (* v[i] = x *)
   Definition set_at (i : nat) (x : V) (s : sv) : res sv :=
@@ -728,7 +941,7 @@ Section Pinned.
 
   Definition copy_assign_pinned (this rhs : sv) : res sv :=
     let n := size rhs in
-    if capacity this <? n then copy_assign P this rhs
+    if capacity this <? n then copy_assign_ref P this rhs
     else
       d1 <- (if negb triv && is_heap this then destroy_range P n (size this) (data this)
              else Ok (data this)) ;;
@@ -736,10 +949,10 @@ Section Pinned.
       d2 <- write_range c_assign 0 vs d1 ;;
       Ok (set_data this d2 n).
 
-  (* push_back(v[i]): x is a reference into the old storage *)
+  (* push_back_ref(v[i]): x is a reference into the old storage *)
   Definition push_back_self_pinned (i : nat) (s : sv) : res sv :=
     if size s =? capacity s then
-      s1 <- grow1 P s ;;
+      s1 <- grow1_ref P s ;;
       vs <- (if is_heap s then Err ReadRaw        (* the old block has been released *)
              else read_range i 1 (loc s1)) ;;      (* a moved-from object *)
       match vs with
@@ -747,10 +960,10 @@ Section Pinned.
                Ok (set_data s1 d (Datatypes.S (size s1)))
       | _ => Err BadRange
       end
-    else push_back_self P i s.
+    else push_back_self_ref P i s.
 
   Definition append_pinned (vs : list V) (s : sv) : res (sv * nat) :=
-    '(s', _) <- append P vs s ;; Ok (s', size s').
+    '(s', _) <- append_ref P vs s ;; Ok (s', size s').
 
   (* insert() as it was: no early exit for an empty range, always
      placement-new in the second branch *)
@@ -762,7 +975,7 @@ Section Pinned.
       [RSizeAdd; RMove Fwd WConstruct PI POldEnd (PMinus PEnd Noverwritten); ROverwrite; RCopyIn WConstruct POldEnd].
 
   Definition insert_pinned (pos : nat) (vs : list V) (s : sv) : res (sv * nat) :=
-    insert_with P insert_shape_pinned (put P) append_pinned pos vs s.
+    insert_with P insert_shape_pinned (put P) (reserve_ref P) append_pinned pos vs s.
 
   Definition resize_pinned (n : nat) (s : sv) : res sv :=
     if n <=? capacity s then
@@ -775,7 +988,7 @@ Section Pinned.
                 else Ok (data s)
             else Ok (data s)) ;;
       Ok (set_data s d n)
-    else resize P n s.
+    else resize_ref P n s.
 
   Definition step_pinned (o : op) (st : state) : res (state * option nat) :=
     match o with
